@@ -31,8 +31,17 @@ fn meta_shape(shape: u8) -> Option<Meta> {
             m.insert("empty".to_string(), Vec::<u8>::new());
             m.insert("c".to_string(), vec![0u8, 255, 7]);
         }
-        _ => {
+        3 => {
             m.insert("big".to_string(), (0..1024u32).map(|i| (i * 7) as u8).collect::<Vec<u8>>());
+        }
+        4 => {
+            // header + metadata alone are larger than the single-pass buffer (4096 bytes)
+            m.insert("big".to_string(), (0..5000u32).map(|i| (i * 13) as u8).collect::<Vec<u8>>());
+            m.insert("".to_string(), b"empty key".to_vec());
+        }
+        _ => {
+            // ... and larger than the in-place I/O threshold
+            m.insert("big".to_string(), (0..100_000u32).map(|i| (i * 31) as u8).collect::<Vec<u8>>());
         }
     }
     Some(m)
@@ -44,7 +53,7 @@ fn meta_len(shape: u8) -> usize {
         Some(m) => {
             // bincode of HashMap<String, Vec<u8>>: 8 + sum(8 + klen + 8 + vlen)
             let mut n = 8;
-            for k in ["a", "empty", "c", "big"] {
+            for k in ["a", "empty", "c", "big", ""] {
                 if let Some(v) = m.get(k) {
                     n += 8 + k.len() + 8 + v.len();
                 }
@@ -467,7 +476,7 @@ pub fn run(thorough: bool, threads: usize) -> (BytesStats, Vec<(String, Vec<Find
     let mut items: Vec<Item> = Vec::new();
     for key_len in [4usize, 33] {
         for mode in [IoMode::Inplace, IoMode::Background] {
-            for meta in 0..4u8 {
+            for meta in 0..6u8 {
                 items.push(Item::Rt { key_len, mode, meta, lengths: value_lengths(key_len, meta, thorough) });
             }
         }
